@@ -21,7 +21,7 @@ LEVEL_TEXT = ('Proof: Coq round-trip theorems, unbounded in text length and in t
               'family of the font-map entry with its id (explicit unknown marker otherwise), and that a font map decodes to '
               'its (id, name) pairs in order with unused slots skipped. Tie: layouts regenerated from the source; '
               'differential run + direct oracle.')
-LEVEL_NOTE = 'Trusted: Coq kernel, hand-written model + encoders, layout translator, extraction, harness, Python codecs. No axioms.'
+LEVEL_NOTE = 'Trusted: Coq kernel, hand-written model + encoders, layout translator, extraction, harness, Python codecs. No axioms. Enc tie: enc_stxt / enc_fmap of the theorems are evaluated by coqc on the run\'s cases and compared with the harness encoder.'
 TECHNIQUE = 'Coq round-trip proofs (layout lemma + induction over runs/fonts) + model/implementation correspondence'
 
 def i16(rng):
